@@ -14,7 +14,7 @@ import (
 )
 
 func init() {
-	register(&Prop{ID: "C27", Module: "V.C27.Check", Gen: c27Gen, Quick: 3000, Thorough: 60000, Shard: 215})
+	register(&Prop{ID: "C27", Module: "V.C27.Check", Gen: c27Gen, Quick: 3000, Thorough: 24000, Shard: 215})
 }
 
 // c27F prints a finite float64 as the Coq pair (mantissa, exponent)%Z with value mantissa * 2^exponent.
@@ -201,13 +201,21 @@ func c27Fit(t string, w, h, px, py float64, class string) (cs Case) {
 	W, H := s.GetDimensionsToFit(w, h, px, py)
 	// ... and d2graph.ToShape / GetLabelTopLeft: a new shape with the fitted size; the cloud gets the aspect
 	// ratio of GetInnerBoxForContent(content) — equivalent to asking for the content's inner box directly.
-	s2 := shape.NewShape(t, geo.NewBox(geo.NewPoint(0, 0), W, H))
+	// The box is placed at an integer offset derived from the input (the model is at the origin; the
+	// inner box must simply move along), every third input stays at the origin.
+	ox, oy := 0., 0.
+	if k := int64(math.Mod(math.Floor(w*7+h*3+px), 3)); k != 0 {
+		ox, oy = float64(int64(math.Mod(math.Floor(w*13+h), 400))-200), float64(int64(math.Mod(math.Floor(h*11+w), 300))-150)
+	}
+	s2 := shape.NewShape(t, geo.NewBox(geo.NewPoint(ox, oy), W, H))
 	var ib *geo.Box
 	if t == shape.CLOUD_TYPE {
 		ib = s2.GetInnerBoxForContent(w, h)
 	} else {
 		ib = s2.GetInnerBox()
 	}
+	ib = geo.NewBox(geo.NewPoint(ib.TopLeft.X-ox, ib.TopLeft.Y-oy), ib.Width, ib.Height)
+	cs.Input.(map[string]any)["box_top_left"] = []float64{ox, oy}
 	cs.Impl = map[string]any{"W": c27J(W), "H": c27J(H), "inner": []any{c27J(ib.TopLeft.X), c27J(ib.TopLeft.Y), c27J(ib.Width), c27J(ib.Height)}}
 	if !c27Finite(W, H, ib.TopLeft.X, ib.TopLeft.Y, ib.Width, ib.Height) {
 		cs.ImplFail = []string{"non-finite result"}
